@@ -111,7 +111,13 @@ WaitCases == {
   W("jwt_finalizer", "token", "mid7", "unset", 0, HttpNone),         \* token lifetime 7 s
   W("cc_finalizer", "token", "soon", "w60", 0, HttpNone),            \* expires_in 2 s, cache_ttl 60 s
   W("httpcache", "http", "absent", "zero", 0, [cc |-> "maxage0", expires |-> "absent", date |-> "now", dttl |-> "zero"]),
-  W("httpcache", "http", "absent", "zero", 0, [cc |-> "maxage1", expires |-> "absent", date |-> "now", dttl |-> "zero"])
+  W("httpcache", "http", "absent", "zero", 0, [cc |-> "maxage1", expires |-> "absent", date |-> "now", dttl |-> "zero"]),
+  (* a hit inside the lifetime (+4 s of 6 s) must not prolong it: the third request (+10 s) finds nothing *)
+  [W("httpcache", "http", "absent", "zero", 0, [cc |-> "maxage6", expires |-> "absent", date |-> "now", dttl |-> "zero"])
+     EXCEPT !.seq = "waithit"],
+  [W("httpcache", "http", "absent", "set", 0, [cc |-> "maxage6", expires |-> "absent", date |-> "now", dttl |-> "set"])
+     EXCEPT !.seq = "waithit"],
+  [W("jwt_finalizer", "token", "mid7", "unset", 0, HttpNone) EXCEPT !.seq = "waithit"]
 }
 
 AllCases == MechCases \cup HttpCases \cup WaitCases
